@@ -123,9 +123,46 @@ func runTransport(r *sim.Run) {
 	nFaults := 6 + t.Choose(10, "nfaults")
 	for f := 0; f < nFaults && !r.Violated(); f++ {
 		fi := t.Choose(len(frames), "frame")
+		if t.Bool("prefer_block_frame") {
+			// the ImportBlock frames carry the deepest structures
+			var bf []int
+			for i, n := range names {
+				if n == "ImportBlock" {
+					bf = append(bf, i)
+				}
+			}
+			if len(bf) > 0 {
+				fi = bf[t.Choose(len(bf), "block_frame")]
+			}
+		}
 		data := append([]byte(nil), frames[fi]...)
 		kind := ""
-		switch t.Pick([]int{5, 3, 3, 4, 3, 2, 2, 2}, "corruption") {
+		// positions that look like a length prefix or a discriminator: small values (the structures on this wire
+		// hold short sequences between 32-byte hashes of high entropy)
+		smallPos := func() int {
+			var c []int
+			for i := 5; i < len(data); i++ {
+				if data[i] > 0x10 {
+					continue
+				}
+				// not inside a long run of equal octets (zero padding of signatures and keys)
+				run := 1
+				for j := i - 1; j >= 5 && data[j] == data[i] && run < 6; j-- {
+					run++
+				}
+				for j := i + 1; j < len(data) && data[j] == data[i] && run < 6; j++ {
+					run++
+				}
+				if run < 6 {
+					c = append(c, i)
+				}
+			}
+			if len(c) == 0 || t.Prob(1, 4, "any_pos") {
+				return 5 + t.Choose(len(data)-5, "pos")
+			}
+			return c[t.Choose(len(c), "small_pos")]
+		}
+		switch t.Pick([]int{5, 3, 3, 4, 3, 2, 2, 4, 4, 3}, "corruption") {
 		case 0:
 			kind = "bit-flip"
 			for k := 0; k <= t.Choose(3, "nflips"); k++ {
@@ -157,10 +194,43 @@ func runTransport(r *sim.Run) {
 			data[4] = byte(6 + t.Choose(249, "mtype"))
 		case 7:
 			kind = "inner-length-edit"
-			// overwrite a few bytes with 0xFF: turns compact length prefixes inside the payload into huge values
-			p := 5 + t.Choose(len(data)-5, "pos")
-			for k := 0; k < 1+t.Choose(9, "nff") && p+k < len(data); k++ {
-				data[p+k] = 0xFF
+			// overwrite a few bytes: turns compact length prefixes inside the payload into huge values
+			// (0xFF.. = 2^64-1; 0xFF + a 64-bit value with one high bit set = sizes that wrap when multiplied)
+			p := smallPos()
+			switch t.Choose(3, "inner_len_shape") {
+			case 0:
+				for k := 0; k < 1+t.Choose(9, "nff") && p+k < len(data); k++ {
+					data[p+k] = 0xFF
+				}
+			case 1:
+				for k := 0; k < 9 && p+k < len(data); k++ {
+					data[p+k] = 0xFF
+				}
+			default:
+				var v [9]byte
+				v[0] = 0xFF
+				binary.LittleEndian.PutUint64(v[1:], uint64(1)<<uint(40+t.Choose(24, "high_bit"))|uint64(t.Choose(300, "low")))
+				for k := 0; k < 9 && p+k < len(data); k++ {
+					data[p+k] = v[k]
+				}
+			}
+		case 8:
+			kind = "byte-set"
+			// a discriminator / small length set to another small or extreme value
+			p := smallPos()
+			data[p] = []byte{0, 1, 2, 3, 4, 0x10, 0x3f, 0x40, 0x7f, 0x80, 0xbf, 0xc0, 0xfe, 0xff, data[p] + 1, data[p] - 1}[t.Choose(16, "setval")]
+		case 9:
+			kind = "payload-cut-length-fixed"
+			// the frame stays well-formed (its length prefix is corrected) but the payload ends early or has a piece cut out
+			if len(data) > 12 {
+				p := 5 + t.Choose(len(data)-6, "cut_at")
+				n := 1 + t.Choose(min(40, len(data)-p), "cut_len")
+				if t.Bool("cut_tail") {
+					data = data[:p]
+				} else {
+					data = append(data[:p], data[p+n:]...)
+				}
+				binary.LittleEndian.PutUint32(data[:4], uint32(len(data)-4))
 			}
 		}
 		r.Count("fault:stream_"+kind, 1)
